@@ -5,7 +5,7 @@ PROP = dict(
     bounded_budget=dict(quick=45, thorough=420),
     assumptions=[],
     trusted_base=['z3 5.1 / cvc5 1.0.3', 'pyvc symbolic executor (DESIGN.md §2)'],
-    manifest=dict(text='Proof: Link.connect/disconnect/navigate/navigate_one, get_metaclass, _find_link, relate and unrelate are proved, for every pair of instances and every link population, to keep the two directed links of an association mirror images, to respect single-valued ends, to change nothing when they raise (relate is atomic) and to be inverse (lemma, thorough). Bounded (separately): API histories to depth 5 incl. delete, which is outside the proof.',
+    manifest=dict(text='Proof: Link.connect/disconnect/navigate/navigate_one, get_metaclass, _find_link, relate and unrelate are proved, for every pair of instances and every link population, to keep the two directed links of an association mirror images, to respect single-valued ends, to change nothing when they raise (relate is atomic) and to be inverse (lemma, thorough); the pool part of delete (MetaClass.delete and xtuml.delete without disconnecting) removes exactly the instance, keeps the order of the rest and raises DeleteException without effect otherwise. Bounded (separately): API histories to depth 5 incl. delete, which is outside the proof.',
                   note='delete, MetaClass.new with referential arguments and formalize are bounded only; K1 (relate accepts a deleted instance) is a known finding.',
                   technique="contract-based deductive verification: sidecar contracts on the real functions, verification conditions generated from the current source of /repo on every run by pyvc (Python AST -> z3/cvc5), every obligation discharged function by function; bounded stand-in (run-time contracts on the real functions driven by small-scope enumeration; labelled bounded, never counted as proved) for the functions outside the verifier's reach, reported separately"),
 )
